@@ -186,3 +186,297 @@ Proof.
   apply (fallback_loop_spec (list_nodes nodes) (mg_cfgs mg m) {| st_assigned := []; st_results := [] |} s l);
     [now rewrite Hcn | exact Hl].
 Qed.
+
+(* ------------------------------------------------------------------ *)
+(* the op-level controller model (selector 8): what holds               *)
+(* ------------------------------------------------------------------ *)
+
+Lemma plookup_pinsert api s l t :
+  plookup (pinsert api s l) t = if s =? t then Some l else plookup api t.
+Proof.
+  induction api as [|[k v] r IH]; simpl.
+  - destruct (s =? t); reflexivity.
+  - destruct (s <? k) eqn:E1; simpl.
+    + destruct (s =? t); reflexivity.
+    + destruct (s =? k) eqn:E2; simpl.
+      * apply Z.eqb_eq in E2. subst k. destruct (s =? t); reflexivity.
+      * rewrite IH. destruct (k =? t) eqn:E3; [|reflexivity].
+        apply Z.eqb_eq in E3. subst k. now rewrite E2.
+Qed.
+
+(* applyAssignment for one scheduler, entry by entry *)
+Lemma apply6_lookup api hidden s l t :
+  plookup (apply6 api hidden s l) t =
+  if s =? t then
+    match plookup api s with
+    | None => Some l
+    | Some cur => if existsb (Z.eqb s) hidden then Some cur
+                  else if needs_update cur l then Some l else Some cur
+    end
+  else plookup api t.
+Proof.
+  unfold apply6. destruct (plookup api s) as [cur|] eqn:E.
+  - destruct (existsb (Z.eqb s) hidden).
+    + destruct (s =? t) eqn:Et; [apply Z.eqb_eq in Et; now subst|reflexivity].
+    + destruct (needs_update cur l).
+      * apply plookup_pinsert.
+      * destruct (s =? t) eqn:Et; [apply Z.eqb_eq in Et; now subst|reflexivity].
+  - apply plookup_pinsert.
+Qed.
+
+(* a global sync with nothing hidden: every NodeShard of the calculation shows the
+   calculated shard unless the damping threshold refuses the update — entry by entry *)
+Lemma sync_fold_lookup (calc : list (Z * list positive)) : forall api t,
+  NoDup (map fst calc) ->
+  plookup (fold_left (fun a e => apply6 a [] (fst e) (snd e)) calc api) t =
+  match plookup calc t with
+  | None => plookup api t
+  | Some l => match plookup api t with
+              | None => Some l
+              | Some cur => if needs_update cur l then Some l else Some cur
+              end
+  end.
+Proof.
+  induction calc as [|[s l] r IH]; intros api t Hnd; [reflexivity|].
+  simpl in Hnd. inversion Hnd as [|? ? Hs Hnd']; subst. simpl fold_left. rewrite IH by assumption.
+  cbn [fst snd plookup]. rewrite apply6_lookup. cbn [existsb].
+  destruct (s =? t) eqn:E.
+  - apply Z.eqb_eq in E. subst t.
+    assert (Hr : plookup r s = None).
+    { clear -Hs. induction r as [|[k v] r IH]; simpl in *; [reflexivity|].
+      destruct (k =? s) eqn:E; [apply Z.eqb_eq in E; tauto | apply IH; tauto]. }
+    rewrite Hr. destruct (plookup api s) as [cur|]; [|reflexivity].
+    destruct (needs_update cur l); reflexivity.
+  - reflexivity.
+Qed.
+
+Lemma zinsert_sorted x l : Sorted.StronglySorted Z.lt l -> Sorted.StronglySorted Z.lt (zinsert x l).
+Proof.
+  induction l as [|y r IH]; simpl; intros H; [repeat constructor|].
+  inversion H as [|? ? Hr Hy]; subst.
+  destruct (x <? y) eqn:E1.
+  - apply Z.ltb_lt in E1. constructor; [assumption|]. constructor; [assumption|].
+    eapply Forall_impl; [|exact Hy]. intros z Hz. lia.
+  - destruct (x =? y) eqn:E2; [assumption|].
+    apply Z.ltb_ge in E1. apply Z.eqb_neq in E2. constructor; [now apply IH|].
+    apply Forall_forall. intros z Hz. apply zinsert_In in Hz. destruct Hz as [-> | Hz]; [lia|].
+    rewrite Forall_forall in Hy. now apply Hy.
+Qed.
+
+Lemma zsort_dedup_sorted l : Sorted.StronglySorted Z.lt (zsort_dedup l).
+Proof. induction l as [|x l IH]; simpl; [constructor | now apply zinsert_sorted]. Qed.
+
+Lemma sorted_lt_nodup l : Sorted.StronglySorted Z.lt l -> NoDup l.
+Proof.
+  induction 1 as [|x l Hs IH Hf]; constructor; [|assumption].
+  intros Hin. rewrite Forall_forall in Hf. specialize (Hf x Hin). lia.
+Qed.
+
+Lemma final_map_names_nodup r : NoDup (map fst (final_map r)).
+Proof.
+  unfold final_map. rewrite map_map. cbn [fst]. rewrite map_id.
+  apply sorted_lt_nodup, zsort_dedup_sorted.
+Qed.
+
+Lemma plookup_rlookup_final r s l : plookup (final_map r) s = Some l -> In (s, l) (final_map r).
+Proof. apply plookup_In. Qed.
+
+Lemma In_plookup (calc : list (Z * list positive)) s l :
+  NoDup (map fst calc) -> In (s, l) calc -> plookup calc s = Some l.
+Proof.
+  induction calc as [|[k v] r IH]; simpl; intros Hnd Hin; [destruct Hin|].
+  inversion Hnd as [|? ? Hk Hnd']; subst. destruct Hin as [E | Hin].
+  - injection E as -> ->. now rewrite Z.eqb_refl.
+  - destruct (k =? s) eqn:E; [|now apply IH]. apply Z.eqb_eq in E. subst k.
+    exfalso. apply Hk. change s with (fst (s, l)). now apply in_map.
+Qed.
+
+(* OSync with nothing hidden, entry by entry: the model's syncShards + workers *)
+Theorem sync_step_lookup mg ns m st t :
+  let calc := snd (reconcile mg (list_nodes ns) m) in
+  plookup (c_api (step6 mg ns m st (OSync []))) t =
+  match plookup calc t with
+  | None => plookup (c_api st) t
+  | Some l => match plookup (c_api st) t with
+              | None => Some l
+              | Some cur => if needs_update cur l then Some l else Some cur
+              end
+  end.
+Proof.
+  intros calc. cbn [step6 c_api]. apply sync_fold_lookup. apply final_map_names_nodup.
+Qed.
+
+(* the invariant the coordinator asked for: after a global sync with no hidden
+   NodeShard and no damping (every existing NodeShard of a configured scheduler is
+   either already current or gets updated), EVERY scheduler's published shard IS its
+   calculated shard, and the published shards of different schedulers are disjoint *)
+Theorem sync_without_damping_publishes_calculation specs mg ns m st :
+  new_manager specs = Some mg ->
+  let calc := snd (reconcile mg (list_nodes ns) m) in
+  (forall s l cur, In (s, l) calc -> plookup (c_api st) s = Some cur -> needs_update cur l = true \/ cur = l) ->
+  let api' := c_api (step6 mg ns m st (OSync [])) in
+  (forall s l, In (s, l) calc -> plookup api' s = Some l) /\
+  (forall s1 l1 s2 l2 x, In (s1, l1) calc -> In (s2, l2) calc -> s1 <> s2 ->
+     plookup api' s1 = Some l1 /\ plookup api' s2 = Some l2 /\ ~ (In x l1 /\ In x l2)).
+Proof.
+  intros Hmg calc Hnd api'.
+  assert (Hcur : forall s l, In (s, l) calc -> plookup api' s = Some l).
+  { intros s l Hin. unfold api'. rewrite sync_step_lookup. fold calc.
+    rewrite (In_plookup calc s l (final_map_names_nodup _) Hin).
+    destruct (plookup (c_api st) s) as [cur|] eqn:E; [|reflexivity].
+    destruct (Hnd s l cur Hin E) as [-> | ->]; [reflexivity|]. now destruct (needs_update l l). }
+  split; [exact Hcur|]. intros s1 l1 s2 l2 x H1 H2 Hne. repeat split; auto.
+  intros [Hx1 Hx2].
+  pose proof (proj2 (reconcile_fresh specs mg (list_nodes ns) m Hmg)) as Ha. fold calc in Ha.
+  exact (shards_disjoint _ _ _ _ s1 l1 s2 l2 x Ha H1 H2 Hne Hx1 Hx2).
+Qed.
+
+(* the fallback on a concrete controller (non-vacuity of C17_fallback_eq_global):
+   two schedulers [0,1] capped at 2, four nodes at 0.1 .. 0.4 *)
+Definition two_caps : list sspec :=
+  map (fun k => {| ss_name := k; ss_cpumin := 0; ss_cpumax := 1000; ss_prefer := false; ss_minn := 0; ss_maxn := 0;
+                   ss_args := [];
+                   ss_policies := [ {| ps_name := P_ALLOC; ps_weight := 1; ps_args := [(1, 0); (2, 1000)] |};
+                                    {| ps_name := P_LIMIT; ps_weight := 0; ps_args := [(4, 2)] |} ] |}) [1; 2].
+Definition m_up : metrics := map (fun i => (Pos.of_nat i, Some (100 * Z.of_nat i))) (seq 1 4).
+Definition m_down : metrics := map (fun i => (Pos.of_nat i, Some (100 * Z.of_nat (5 - i)))) (seq 1 4).
+
+Example fallback_demo :
+  exists mg, new_manager two_caps = Some mg /\
+    fallback mg (plain_nodes 4) m_up 1 = Some [4; 3]%positive /\
+    fallback mg (plain_nodes 4) m_up 2 = Some [2; 1]%positive /\
+    fallback mg (plain_nodes 4) m_up 7 = None.
+Proof. eexists. vm_compute. repeat split; reflexivity. Qed.
+
+(* second audit N1 (known finding C17-fallback-republishes-one-shard): a global sync,
+   then the utilisations are reversed, the cache is gone and only scheduler 2's key
+   is processed: both NodeShards hold nodes 3 and 4 — no damping involved *)
+Theorem fallback_single_key_overlap_refuted :
+  exists p1 p2,
+    publish_ops_history two_caps
+      [ (plain_nodes 4, m_up, [OSync []]); (plain_nodes 4, m_down, [OClear; OKey 2 []]) ] = Some [p1; p2] /\
+    p2 = [(1, [4; 3]%positive); (2, [3; 4]%positive)] /\
+    law_disjoint p2 = false /\
+    needs_update [4; 3]%positive [1; 2]%positive = true /\
+    sync_assignments (plain_nodes 4) m_down two_caps = Some [(1, [1; 2]%positive); (2, [3; 4]%positive)].
+Proof. eexists _, _. vm_compute. repeat split; reflexivity. Qed.
+
+(* every NodeShard the op-level controller ever publishes — through a sync, a
+   cached assignment or the fallback, with deleted and lister-hidden NodeShards —
+   is some scheduler's entry of the global calculation of this or an earlier step *)
+Definition inv6 (P : Z * list positive -> Prop) (st : cstate6) : Prop :=
+  (forall e, In e (c_api st) -> P e) /\
+  (forall c e, c_cache st = Some c -> In e c -> P e).
+
+Lemma pinsert_In api s l e : In e (pinsert api s l) -> e = (s, l) \/ In e api.
+Proof.
+  induction api as [|[k v] r IH]; simpl; [intuition|].
+  destruct (s <? k); simpl; [intuition|]. destruct (s =? k); simpl; [intuition|].
+  intros [H | H]; [now right; left|]. destruct (IH H); [now left | now right; right].
+Qed.
+
+Lemma premove_In api s e : In e (premove api s) -> In e api.
+Proof.
+  induction api as [|[k v] r IH]; simpl; [tauto|].
+  destruct (k =? s); simpl; [intros H; right; now apply IH|]. intros [H | H]; [now left | right; now apply IH].
+Qed.
+
+Lemma apply6_In api h s l e : In e (apply6 api h s l) -> e = (s, l) \/ In e api.
+Proof.
+  unfold apply6. destruct (plookup api s); [|apply pinsert_In].
+  destruct (existsb (Z.eqb s) h); [now right|]. destruct (needs_update l0 l); [apply pinsert_In | now right].
+Qed.
+
+Lemma fallback_loop_In nodes cfgs : forall assigned s l,
+  fallback_loop nodes cfgs assigned s = Some l -> In s (map fst cfgs).
+Proof.
+  induction cfgs as [|c r IH]; intros assigned s l H; [discriminate|]. simpl in H.
+  destruct (fst c =? s) eqn:E; [apply Z.eqb_eq in E; now left | right; eapply IH; eauto].
+Qed.
+
+Lemma step6_inv specs mg ns m (P : Z * list positive -> Prop) st o :
+  new_manager specs = Some mg ->
+  (forall e, In e (snd (reconcile mg (list_nodes ns) m)) -> P e) ->
+  inv6 P st -> inv6 P (step6 mg ns m st o).
+Proof.
+  intros Hmg Hcalc [Hapi Hcache]. destruct o as [hidden | s hidden | | s]; cbn [step6].
+  - split; cbn [c_api c_cache].
+    + generalize (c_api st) Hapi. induction (snd (reconcile mg (list_nodes ns) m)) as [|[k v] r IH]; intros api Ha e He; [now apply Ha|].
+      simpl in He. refine (IH _ _ _ e He); [intros; apply Hcalc; now right|].
+      intros e' He'. apply apply6_In in He'. destruct He' as [-> | He']; [apply Hcalc; now left | now apply Ha].
+    + intros c e [= <-]. apply Hcalc.
+  - assert (Hd : forall l, match c_cache st with
+                         | Some c => match plookup c s with Some l0 => Some l0 | None => fallback mg ns m s end
+                         | None => fallback mg ns m s end = Some l -> P (s, l)).
+    { intros l H.
+      assert (Hf : fallback mg ns m s = Some l -> P (s, l)).
+      { intros Hfb. assert (Hin : In s (map ss_name specs)).
+        { unfold fallback in Hfb. apply fallback_loop_In in Hfb. unfold mg_cfgs in Hfb. rewrite map_map in Hfb. cbn [fst] in Hfb.
+          unfold new_manager in Hmg. destruct (valid_config specs); [|discriminate]. injection Hmg as <-.
+          now rewrite map_map in Hfb. }
+        rewrite (fallback_eq_global specs mg ns m s Hmg Hin) in Hfb. injection Hfb as <-.
+        apply Hcalc. apply rlookup_In. unfold reconcile. cbn [snd]. unfold final_map. rewrite map_map. cbn [fst]. rewrite map_id.
+        apply zsort_dedup_In.
+        destruct (calc_results_app nname (list_nodes ns) (map (fun c => (fst c, to_gchain (mlookup m) (snd c))) mg)
+                    {| st_assigned := []; st_results := [] |}) as [new [H1 H2]].
+        rewrite calc_unbatched. unfold calc_with. rewrite H1. cbn [st_results]. rewrite app_nil_r, H2, <- in_rev, map_map. cbn [fst].
+        unfold new_manager in Hmg. destruct (valid_config specs); [|discriminate]. injection Hmg as <-. now rewrite map_map. }
+      destruct (c_cache st) as [c|] eqn:Ec; [|now apply Hf].
+      destruct (plookup c s) as [l0|] eqn:El; [|now apply Hf].
+      injection H as <-. apply (Hcache c); [reflexivity | now apply plookup_In]. }
+    destruct (match c_cache st with Some c => _ | None => _ end) as [l|] eqn:E; [|split; assumption].
+    split; cbn [c_api c_cache]; [|assumption].
+    intros e He. apply apply6_In in He. destruct He as [-> | He]; [now apply Hd | now apply Hapi].
+  - split; cbn [c_api c_cache]; [assumption | discriminate].
+  - split; cbn [c_api c_cache]; [|assumption]. intros e He. apply Hapi. eapply premove_In; eauto.
+Qed.
+
+Lemma fold_step6_inv specs mg ns m (P : Z * list positive -> Prop) ops : forall st,
+  new_manager specs = Some mg ->
+  (forall e, In e (snd (reconcile mg (list_nodes ns) m)) -> P e) ->
+  inv6 P st -> inv6 P (fold_left (step6 mg ns m) ops st).
+Proof.
+  induction ops as [|o ops IH]; intros st Hmg Hc H0; [exact H0|].
+  simpl. apply IH; auto. eapply step6_inv; eauto.
+Qed.
+
+Lemma inv6_weaken (P Q : Z * list positive -> Prop) st : (forall e, P e -> Q e) -> inv6 P st -> inv6 Q st.
+Proof. intros H [H1 H2]. split; [intros e He; apply H, H1, He | intros c e Hc He; apply H; eapply H2; eauto]. Qed.
+
+Definition from_step (mg : manager) (steps : list (list node * metrics * list op6)) (k : nat) (e : Z * list positive) : Prop :=
+  exists j ns m ops, (j <= k)%nat /\ nth_error steps j = Some (ns, m, ops) /\
+                     In e (snd (reconcile mg (list_nodes ns) m)).
+
+Lemma ops_history_origin specs mg : new_manager specs = Some mg ->
+  forall steps st (P0 : Z * list positive -> Prop) k api e,
+  inv6 P0 st -> nth_error (ops_history mg st steps) k = Some api -> In e api ->
+  P0 e \/ from_step mg steps k e.
+Proof.
+  intros Hmg. induction steps as [|[[ns m] ops] steps IH]; intros st P0 k api e Hinv Hk He; [now destruct k|].
+  set (P1 := fun e => P0 e \/ exists x : unit, In e (snd (reconcile mg (list_nodes ns) m))).
+  assert (Hst' : inv6 P1 (fold_left (step6 mg ns m) ops st)).
+  { apply (fold_step6_inv specs); auto.
+    - intros e' He'. right. now exists tt.
+    - eapply inv6_weaken; [|exact Hinv]. intros; now left. }
+  simpl in Hk. destruct k as [|k]; simpl in Hk.
+  - injection Hk as <-. destruct Hst' as [Ha _]. destruct (Ha e He) as [H | [_ H]]; [now left|].
+    right. exists 0%nat, ns, m, ops. repeat split; auto.
+  - destruct (IH _ P1 k api e Hst' Hk He) as [[H | [_ H]] | [j [ns' [m' [ops' [Hj [Hn Hin]]]]]]].
+    + now left.
+    + right. exists 0%nat, ns, m, ops. split; [lia|]. split; [reflexivity | assumption].
+    + right. exists (S j), ns', m', ops'. split; [lia|]. split; assumption.
+Qed.
+
+Theorem published_ops_is_earlier_calculation specs steps pubs k api e :
+  publish_ops_history specs steps = Some pubs -> nth_error pubs k = Some api -> In e api ->
+  exists j ns m ops res, (j <= k)%nat /\ nth_error steps j = Some (ns, m, ops) /\
+                         sync_assignments ns m specs = Some res /\ In e res.
+Proof.
+  unfold publish_ops_history. destruct (new_manager specs) as [mg|] eqn:Emg; [|discriminate].
+  intros [= <-] Hk He.
+  destruct (ops_history_origin specs mg Emg steps {| c_api := []; c_cache := None |} (fun _ => False) k api e)
+    as [[] | [j [ns [m [ops [Hj [Hn Hin]]]]]]]; auto.
+  - split; [intros e0 [] | intros c e0; discriminate].
+  - exists j, ns, m, ops, (snd (reconcile mg (list_nodes ns) m)). repeat split; auto.
+    unfold sync_assignments. exact (proj2 (reconcile_fresh specs mg (list_nodes ns) m Emg)).
+Qed.
